@@ -40,6 +40,7 @@ Fixpoint wf_node (n : node) : bool :=
   | NText _ => true
   | NBlock s => negb (is_nil s)
   | NFrag ch => forallb wf_node ch
+  | NComment => true
   | NElem tag attrs ch =>
       name_okb tag && no_foreign_script tag ch && negb (is_component tag) && negb (beq tag k_param)
       && forallb wf_attr attrs && forallb wf_node ch
@@ -63,13 +64,14 @@ Definition KnownClass (t : list node) : Prop := forallb nta t = false.
 Lemma node_ind' : forall P : node -> Prop,
     (forall s, P (NText s)) -> (forall s, P (NBlock s)) ->
     (forall tag attrs ch, Forall P ch -> P (NElem tag attrs ch)) ->
-    (forall ch, Forall P ch -> P (NFrag ch)) -> forall n, P n.
+    (forall ch, Forall P ch -> P (NFrag ch)) -> P NComment -> forall n, P n.
 Proof.
-  intros P Ht Hb He Hf. fix IH 1. intros [s|s|tag attrs ch|ch].
+  intros P Ht Hb He Hf Hc. fix IH 1. intros [s|s|tag attrs ch|ch|].
   - apply Ht.
   - apply Hb.
   - apply He. induction ch as [|x ch IHch]; constructor; [apply IH | exact IHch].
   - apply Hf. induction ch as [|x ch IHch]; constructor; [apply IH | exact IHch].
+  - apply Hc.
 Qed.
 
 (** ---- the element tables of macro, renderer and parser agree ---- *)
@@ -216,7 +218,7 @@ Qed.
 
 Lemma inert_node_ok : forall n, inert_ok n.
 Proof.
-  induction n as [s|s|tag attrs ch IH|ch IH] using node_ind'; unfold inert_ok; intros Hw Hn Hs k cur.
+  induction n as [s|s|tag attrs ch IH|ch IH|] using node_ind'; unfold inert_ok; intros Hw Hn Hs k cur.
   - cbn [inert_node dn]. apply feed_enc_text.
   - discriminate.
   - cbn [wf_node] in Hw. do 8 (apply andb_true_iff in Hw as [Hw ?]).
@@ -242,6 +244,7 @@ Proof.
            fold (dn_list ch []). rewrite dn_list_texts by assumption. reflexivity.
         -- rewrite feed_app, (inert_children ch IH) by assumption.
            rewrite feed_end_tag by assumption. reflexivity.
+  - discriminate.
   - discriminate.
 Qed.
 
@@ -269,7 +272,7 @@ Proof.
   induction ch as [|x ch IH]; intros pos Ht; [reflexivity|].
   cbn [forallb] in Ht. apply andb_true_iff in Ht as [Hx Ht]. rewrite thread_cons. cbn [fst flat_map].
   rewrite IH by assumption. f_equal.
-  destruct x as [s|s| |]; try discriminate; cbn [r_node text_of].
+  destruct x as [s|s| | |]; try discriminate; cbn [r_node text_of].
   - destruct s; [reflexivity|]. cbn [is_nil r_text fst]. now destruct pos.
   - cbn [r_text fst]. now destruct pos.
 Qed.
@@ -282,7 +285,7 @@ Proof.
   induction ch as [|x ch IH]; intros pos Ht Hf; [now split|].
   cbn [forallb] in Ht. apply andb_true_iff in Ht as [Hx Ht]. cbn [filter] in Hf.
   destruct (renders_text x) eqn:Er; [discriminate|].
-  destruct x as [s|s| |]; try discriminate. destruct s; [|discriminate].
+  destruct x as [s|s| | |]; try discriminate. destruct s; [|discriminate].
   rewrite thread_cons. cbn [r_node is_nil fst snd flat_map text_of app].
   destruct (IH pos Ht Hf) as [-> ->]. now split.
 Qed.
@@ -301,12 +304,12 @@ Proof.
       cbn [List.length] in Hc. apply N.leb_le in Hc. lia. }
     destruct (thread_rc_none io ch (snd (r_node io false true pos x)) Ht Hnone) as [-> ->].
     cbn [fst]. rewrite !app_nil_r.
-    destruct x as [s|s| |]; try discriminate; cbn [r_node text_of].
+    destruct x as [s|s| | |]; try discriminate; cbn [r_node text_of].
     + cbn [renders_text] in Er. apply negb_true_iff in Er. rewrite Er. unfold r_text. cbn [fst]. rewrite Er.
       destruct pos; try reflexivity. congruence.
     + cbn [wf_node] in Hwx. apply negb_true_iff in Hwx. unfold r_text. cbn [fst]. rewrite Hwx.
       destruct pos; try reflexivity. congruence.
-  - destruct x as [s|s| |]; try discriminate. destruct s; [|discriminate].
+  - destruct x as [s|s| | |]; try discriminate. destruct s; [|discriminate].
     cbn [r_node is_nil fst snd text_of app]. cbn [enc_text flat_map app]. now apply IH.
 Qed.
 
@@ -329,7 +332,7 @@ Qed.
 
 Lemma render_node_ok : forall n, render_ok n.
 Proof.
-  induction n as [s|s|tag attrs ch IH|ch IH] using node_ind'; unfold render_ok;
+  induction n as [s|s|tag attrs ch IH|ch IH|] using node_ind'; unfold render_ok;
     intros Hw Hn io top pos k cur.
   - cbn [r_node dn]. destruct s as [|c s]; [reflexivity|]. now apply r_text_ok.
   - cbn [r_node dn]. cbn [wf_node] in Hw. apply negb_true_iff in Hw. now apply r_text_ok.
@@ -373,6 +376,7 @@ Proof.
               now rewrite builder_attrs_denote by assumption.
   - cbn [r_node dn]. cbn [wf_node] in Hw. cbn [nta] in Hn. fold (dn_list ch cur).
     now apply render_children.
+  - reflexivity.
 Qed.
 
 (** ---- theorems ---- *)
@@ -382,11 +386,12 @@ Definition wf (t : list node) : Prop := forallb wf_node t = true.
     template's denotation *)
 Lemma no_tokens_dn : forall n cur, has_tokens n = false -> dn n cur = cur.
 Proof.
-  induction n as [s|s|tag attrs ch IH|ch IH] using node_ind'; intros cur H; try discriminate.
+  induction n as [s|s|tag attrs ch IH|ch IH|] using node_ind'; intros cur H; try discriminate.
   - destruct s; [reflexivity | discriminate].
   - cbn [has_tokens] in H. cbn [dn]. revert cur. induction IH as [|x ch Hx _ IHch]; intros cur; [reflexivity|].
     cbn [existsb] in H. apply orb_false_iff in H as [H1 H2]. cbn [fold_left]. rewrite Hx by assumption.
     now apply IHch.
+  - reflexivity.
 Qed.
 
 Lemma no_tokens_dn_list : forall l cur, existsb has_tokens l = false -> dn_list l cur = cur.
@@ -415,7 +420,7 @@ Theorem inert_denotes : forall n, wf [n] -> ~ KnownClass [n] -> is_inert_element
 Proof.
   intros n Hw Hk Hi. unfold KnownClass in Hk. apply not_false_is_true in Hk.
   unfold wf in Hw. cbn [forallb] in Hw, Hk. rewrite andb_true_r in Hw, Hk.
-  unfold is_inert_element in Hi. destruct n as [| |tag attrs ch|]; try discriminate.
+  unfold is_inert_element in Hi. destruct n as [| |tag attrs ch| |]; try discriminate.
   apply andb_true_iff in Hi as [_ Hs].
   unfold parse, inert_html. rewrite (inert_node_ok _ Hw Hk Hs). reflexivity.
 Qed.
@@ -496,7 +501,7 @@ Qed.
 Lemma occurs_dn_keeps : forall x n cur,
     is_elem x -> occurs x cur -> occurs x (dn n cur).
 Proof.
-  intros x n. induction n as [s|s|tag attrs ch IH|ch IH] using node_ind'; intros cur Hx Ho.
+  intros x n. induction n as [s|s|tag attrs ch IH|ch IH|] using node_ind'; intros cur Hx Ho.
   - cbn [dn]. destruct Ho as [l Hin|l tag a ch Hin Hd].
     + apply occ_here. now apply push_text_keeps.
     + apply (occ_deeper x _ tag a ch); [|exact Hd]. now apply push_text_keeps.
@@ -508,6 +513,7 @@ Proof.
     + apply (occ_deeper x _ tag' a ch'); [right; exact Hin | exact Hd].
   - cbn [dn]. revert cur Ho. induction IH as [|y ch Hy _ IHch]; intros cur Ho; [exact Ho|].
     cbn [fold_left]. apply IHch. now apply Hy.
+  - exact Ho.
 Qed.
 
 Lemma occurs_dn_list_keeps : forall x l cur, is_elem x -> occurs x cur -> occurs x (dn_list l cur).
@@ -612,6 +618,21 @@ Example ex_paths_differ_textually :
   view_html true ex_template <> builder_html ex_template
   /\ parse (view_html true ex_template) = parse (builder_html ex_template).
 Proof. split; [vm_compute; discriminate | vm_compute; reflexivity]. Qed.
+
+(** an event listener / a comment keep an otherwise static element off the inert path, and change
+    nothing in what is rendered *)
+Definition ex_silent : list node :=
+  [NElem (bs "div") []
+     [NElem (bs "button") [APlain (bs "id") (VLit (bs "b")); ASilent] [NText (bs "x<")];
+      NElem (bs "p") [APlain (bs "id") (VLit (bs "c"))] [NComment; NText (bs "y")];
+      NElem (bs "p") [APlain (bs "id") (VLit (bs "d"))] [NText (bs "z")]]].
+Example ex_silent_ok :
+  wf ex_silent /\ ~ KnownClass ex_silent
+  /\ is_inert_element (NElem (bs "button") [APlain (bs "id") (VLit (bs "b")); ASilent] [NText (bs "x<")]) = false
+  /\ is_inert_element (NElem (bs "p") [APlain (bs "id") (VLit (bs "c"))] [NComment; NText (bs "y")]) = false
+  /\ is_inert_element (NElem (bs "p") [APlain (bs "id") (VLit (bs "d"))] [NText (bs "z")]) = true
+  /\ parse (view_html true ex_silent) = denote ex_silent.
+Proof. repeat split; try (vm_compute; congruence). Qed.
 
 Lemma void_tables_agree : forall tag, beq tag k_param = false -> mem tag macro_void = b_void tag.
 Proof. intros tag H. now rewrite b_void_eq, void_agree. Qed.
